@@ -6,7 +6,9 @@ RULE = ('every node of every generated graph x {children, parents, ancestors, de
         'to the edge list / its transitive closure). Exhaustive: every DAG on <= 4 positions x every assignment of k labels from '
         'label sets stressing ordering; random: chains, trees, stars, forests, layered diamonds, shortcut edges, dense DAGs, edges '
         'shuffled / grouped by subject / grouped by object. A case (graph, factory) is non-trivial when the graph has a node with '
-        '>= 2 parents, or >= 2 parentless terms, or a path of length >= 3; distinct by (factory, edge list).')
+        '>= 2 parents, or >= 2 parentless terms, or a path of length >= 3; distinct by (factory, edge list). Plus big graphs (chain of '
+        '1150, tree with shortcuts of 500, star of 700, 7-root forest of 300 nodes; several thousand in the thorough tier) whose answers '
+        'for sampled nodes are compared with an independent closure computed by the harness (integer widths, recursion depth).')
 
 THEOREM = 'Hpv.Props.C01.*'
 
@@ -65,6 +67,7 @@ def run(ctx):
         cases.extend(mk_cases(edges, tag=f'{shape}/{order}'))
     for i in range(0, len(cases), 600):
         gl.evaluate_cases(ctx, cases[i:i + 600], 'random', THEOREM, nontrivial)
+    big_graphs(ctx, rng, thorough)
     # long chain / wide star
     for n in ((200, 400) if thorough else (120,)):
         chain = [(f'HP:{i:07d}', f'HP:{i - 1:07d}') for i in range(1, n)]
@@ -77,8 +80,78 @@ def run(ctx):
                               'long-chain/star', THEOREM, nontrivial)
 
 
+def big_graphs(ctx, rng, thorough):
+    """hierarchies far beyond the modelled scopes (more than 127 / 255 / 1000 nodes: numpy integer widths, recursion depth, chunk
+    sizes), checked against an independent closure computed here; the Lean model is not involved (it is proved for every size)"""
+    _, TermId, _, _ = gl._hp()
+    sizes = {'chain': 1150 if not thorough else 2600, 'tree+shortcuts': 500 if not thorough else 1500, 'star': 700 if not thorough else 3000,
+             'multi-root-forest': 300 if not thorough else 900}
+    for shape, n in sizes.items():
+        ids = [f'HP:{i:07d}' for i in rng.sample(range(1, 50 * n), n)]
+        if shape == 'chain':
+            edges = [(ids[i], ids[i - 1]) for i in range(1, n)]
+        elif shape == 'star':
+            edges = [(ids[i], ids[0]) for i in range(1, n)]
+        elif shape == 'tree+shortcuts':
+            edges = [(ids[i], ids[rng.randrange(i)]) for i in range(1, n)]
+            for _ in range(n // 3):
+                j = rng.randrange(2, n)
+                edges.append((ids[j], ids[rng.randrange(j)]))
+            edges = list(dict.fromkeys(edges))
+        else:
+            roots = 7
+            edges = [(ids[i], ids[rng.randrange(max(roots, 1)) if i < 3 * roots else rng.randrange(i)]) for i in range(roots, n)]
+        rng.shuffle(edges)
+        par, chi = {}, {}
+        for a, b in edges:
+            par.setdefault(a, set()).add(b)
+            chi.setdefault(b, set()).add(a)
+        parentless = sorted(x for x in set(ids[:n]) & (set(par) | set(chi)) if x not in par)
+        if len(parentless) > 1:
+            for r in parentless:
+                par.setdefault(r, set()).add('owl:Thing')
+                chi.setdefault('owl:Thing', set()).add(r)
+
+        def closure(rel, v):
+            seen, todo = set(), [v]
+            while todo:
+                for y in rel.get(todo.pop(), ()):
+                    if y not in seen:
+                        seen.add(y)
+                        todo.append(y)
+            return seen
+        probes = [edges[0][0], edges[-1][1]] + rng.sample(ids[:n], 8) + (['owl:Thing'] if len(parentless) > 1 else parentless[:1])
+        for f in gl.FACTORIES:
+            if f == 'builder' and n > 1600:
+                continue            # the deprecated builder is quadratic
+            ctx.case(['big', shape, n, f], True, 'big-graphs(independent oracle)', sample={'shape': shape, 'nodes': n, 'factory': f})
+            try:
+                g = gl.build_impl(f, edges)
+                problem = None
+                for v in probes:
+                    t = TermId.from_curie(v)
+                    want = {'parents': sorted(par.get(v, ())), 'children': sorted(chi.get(v, ())),
+                            'ancestors': sorted(closure(par, v)), 'descendants': sorted(closure(chi, v))}
+                    for q in gl.QS:
+                        got = sorted(x.value for x in getattr(g, 'get_' + q)(t))
+                        got_incl = sorted(x.value for x in getattr(g, 'get_' + q)(t, True))
+                        if got != want[q] or got_incl != sorted(want[q] + [v]):
+                            problem = f'get_{q}({v}) on a {shape} of {n} nodes: {len(got)} / {len(got_incl)} elements, expected {len(want[q])} / {len(want[q]) + 1}'
+                            break
+                    if problem:
+                        break
+            except Exception as e:  # noqa
+                problem = f'raises {type(e).__name__}: {str(e)[:200]}'
+            if problem:
+                ctx.violation(f'{f}:big:{shape}', {'case': {'kind': 'big', 'factory': f, 'shape': shape, 'n': n, 'edges': [list(e) for e in edges]},
+                                                   'impl': problem, 'theorem': THEOREM})
+
+
 def replay(ctx, data):
     c = data['case']
+    if c.get('kind') == 'big':
+        big_graphs(ctx, ctx.rng, ctx.tier == 'thorough')
+        return
     _, TermId, _, _ = gl._hp()
     edges = [tuple(e) for e in c['edges']]
     gl.evaluate_cases(ctx, [x for x in mk_cases(edges) if x['factory'] == c['factory']], 'replay', THEOREM, nontrivial)
